@@ -355,7 +355,7 @@ theorem ordered_of_shape {σ ρ : Type} (rank : Nat → Nat) (p : Prog σ ρ) (l
 
 /-- the same at the level of lock states: when every thread requests a lock only above (in `rank`)
     every lock it holds, the wait-for relation has no cycle -/
-theorem ordered_no_wait_cycle' (L : LockState) (rank : Nat → Nat) (h : L.orderedBy rank) (a : Nat) (path : List Nat) :
+theorem ordered_lock_states_no_wait_cycle (L : LockState) (rank : Nat → Nat) (h : L.orderedBy rank) (a : Nat) (path : List Nat) :
     ¬ L.chain (a :: path ++ [a]) := ordered_no_wait_cycle L rank h a path
 
 /-- THE SPECIAL CASE of un-nested methods.  No storage-trait method of either backend other than the
